@@ -351,6 +351,29 @@ class Tracer:
         self._this_path = env.pop("__this__", None)
         return self.trace(fn, stream, env, depth)
 
+    def _rewritten(self, fn, v, use_id):
+        """Local v (declared with an initialiser) is handed to a call by mutable reference / pointer, or assigned, between its
+        declaration and node use_id."""
+        decl = None
+        for dn in fn.nodes:
+            if dn["k"] == "DeclStmt" and any(("var", d.get("n"), d.get("d")) == v for d in dn.get("decls", [])):
+                decl = dn["id"]
+        if decl is None:
+            return False
+        for nd in fn.nodes:
+            if not (decl < nd["id"] < use_id):
+                continue
+            if nd["k"] in ("BinaryOperator", "CompoundAssignOperator") and nd.get("op", "").endswith("=") and nd["op"] not in ("==", "!=", "<=", ">=") \
+                    and fn.term(fn.kids(nd["id"])[0]) == v:
+                return True
+            if nd["k"] in ("CallExpr", "CXXMemberCallExpr", "CXXOperatorCallExpr"):
+                ps = nd.get("params") or []
+                args = nd.get("args") or []
+                for a_, p_ in zip(args[-len(ps):] if ps else [], ps):
+                    if ((p_.get("ref") and not p_.get("const_ref")) or (p_.get("ptr") and not p_.get("const_ptr"))) and v in (fn.term(a_), ) :
+                        return True
+        return False
+
     def _value_source(self, fn, a, env, vt):
         """For a plain local: the expression it was initialised with, as a path (None if it is not such a local)."""
         if a[0] != "var":
@@ -429,7 +452,9 @@ class Tracer:
                 aenv["__anon__"] = True
                 if a[0] == "var" and ("src", a[1], a[2]) in env:
                     src = env[("src", a[1], a[2])]
-                elif a[0] == "var" and a in defs:
+                elif a[0] == "var" and a in defs and (fn.local_value_at(a, c["id"]) is not None or not self._rewritten(fn, a, c["id"])):
+                    # (a local that something between its declaration and this write may have changed - handed to a function
+                    # by mutable reference, say - no longer stands for its initialiser)
                     tt = defs[a]
                     for _ in range(4):
                         tt = substitute(tt, defs)
